@@ -59,7 +59,7 @@ public:
     }
     Tree& operator=(Tree&& other) noexcept {
         std::swap(ptr, other.ptr);
-        flags = other.flags;
+        std::swap(flags, other.flags);
         return *this;
     }
 
